@@ -59,7 +59,9 @@ MC_MULTI_Q = mc("MC_Multi_q", Templates={"B0", "F0"}, MaxAuc=2, Amts={2}, Prices
 
 TC_EXT_Q = mc("TC_Ext_q", Templates={"B5"}, Prices={1, 2}, Amts={2}, MaxBids=3, Tmax=5, Jump=1, CapSet={2, 4}, StartOffsets={0},
               CreateUntil=0, Dur=2, MaxMods=0, Bidders={"u2"})
-TC_FIXED_Q = mc("TC_Fixed_q", WithInvalid=True, RejectSample=150, Templates={"F1", "F3"}, Amts={1, 2, 3}, MaxBids=2, Tmax=7, Jump=2, CapSet={3, 5}, StartOffsets={0, 1}, CreateUntil=1)
+TC_FIXEDI_Q = mc("TC_FixedI_q", WithInvalid=True, RejectSample=10, Templates={"F1"}, Amts={1, 3}, MaxBids=1, Tmax=5, Jump=3, CapSet={5}, StartOffsets={0},
+                 CreateUntil=0, Bidders={"u2"})
+TC_FIXED_Q = mc("TC_Fixed_q", Templates={"F1", "F3"}, Amts={1, 2, 3}, MaxBids=2, Tmax=7, Jump=2, CapSet={3, 5}, StartOffsets={0, 1}, CreateUntil=1)
 TC_BATCH_Q = mc("TC_Batch_q", Templates={"B1"}, Prices={1, 2}, Amts={1, 3}, MaxBids=2, Tmax=8, Jump=2, StartOffsets={0, 1}, CreateUntil=1)
 TC_MODIFY_Q = mc("TC_Modify_q", RejectSample=40, Templates={"B0"}, Prices={1, 2, 3}, Amts={1, 3}, MaxBids=2, Tmax=3, Jump=2, StartOffsets={0}, CreateUntil=0,
                  WithInvalid=True, Bidders={"u2"}, CapSet={5})
@@ -100,9 +102,9 @@ PLANS = {
     "C01": dict(mc=[MC_BATCH_Q, MC_FIXED_Q], gen=GEN_GENERAL),
     "C02": dict(mc=[MC_BATCH_Q, MC_FIXED_Q], gen=GEN_GENERAL, tc=[TC_EXT_Q, TC_CANCEL_Q], tc_max=2500),
     "C03": dict(mc=[MC_BATCH_Q], gen=GEN_GENERAL),
-    "C04": dict(mc=[MC_BATCH_Q, MC_FIXED_Q], gen=GEN_GENERAL, tc=[TC_BATCH_Q, TC_FIXED_Q], tc_max=2000),
+    "C04": dict(mc=[MC_BATCH_Q, MC_FIXED_Q], gen=GEN_GENERAL, tc=[TC_BATCH_Q, TC_FIXED_Q, TC_FIXEDI_Q], tc_max=2000),
     "C05": dict(mc=[MC_BATCH_Q, MC_FIXED_Q], gen=GEN_GENERAL),
-    "C06": dict(mc=[MC_FIXED_Q], gen=GEN_GENERAL, tc=[TC_FIXED_Q], tc_max=4000),
+    "C06": dict(mc=[MC_FIXED_Q], gen=GEN_GENERAL, tc=[TC_FIXED_Q, TC_FIXEDI_Q], tc_max=3000),
     "C07": dict(mc=[MC_LIFE_Q, MC_LIFE2_Q],
                 gen=GEN_GENERAL + [dict(g, name=g["name"] + "F", consts=dict(g["consts"], Faults={0, 1, 2, 3, 5, 8})) for g in GEN_MANY]),
     "C08": dict(mc=[MC_LIFE_Q, MC_LIFE2_Q], gen=GEN_GENERAL),
@@ -144,23 +146,23 @@ PLANS["C14"] = dict(mc=[], gen=GEN_MANY + scale(GEN_GENERAL, 0.3), check="C14", 
 PLANS["ALL"] = dict(mc=[], gen=GEN_GENERAL, check="ALL")
 
 
-MC_BATCH_T = mc("MC_Batch_t", Templates={"B1", "B5"}, Prices={1, 2, 3}, Amts={1, 3}, MaxBids=3, Tmax=8, timeout=2400)
+MC_BATCH_T = mc("MC_Batch_t", Templates={"B1", "B5"}, Prices={1, 2, 3}, Amts={1, 3}, MaxBids=3, Tmax=8, timeout=1500)
 MC_LIFE_T = mc("MC_Life_t", D=4, Templates={"Fl", "Bl"}, MaxAuc=2, Amts={2}, Prices={4}, MaxBids=1, Tmax=10, Jump=3, CapSet={5},
-               CreateUntil=2, StartOffsets={0, 1}, timeout=2400)
-MC_MULTI_T = mc("MC_Multi_t", Templates={"B0", "F0"}, MaxAuc=2, Amts={2}, Prices={2}, MaxBids=2, Tmax=5, Jump=2, CapSet={3, 5}, timeout=2400)
+               CreateUntil=2, StartOffsets={0, 1}, timeout=1500)
+MC_MULTI_T = mc("MC_Multi_t", Templates={"B0", "F0"}, MaxAuc=2, Amts={2}, Prices={2}, MaxBids=2, Tmax=5, Jump=2, CapSet={3, 5}, timeout=1500)
 MC_GENESIS_T = mc("MC_Genesis_t", Templates={"B1", "F1", "Bx"}, MaxAuc=2, Amts={2}, Prices={2}, MaxBids=1, Tmax=7, Jump=2, WithGenesis=True,
-                  timeout=2400)
-MC_HOOKS_T = mc("MC_Hooks_t", NL=3, HookVariants=True, Templates={"B0", "F0", "B1"}, Amts={2, 3}, Prices={2, 3}, MaxBids=2, Tmax=7, Jump=2,
-                CapSet={5}, StartOffsets={0, 1}, MaxAuc=2, CreateUntil=1, timeout=2400)
+                  timeout=1500)
+MC_HOOKS_T = mc("MC_Hooks_t", NL=3, HookVariants=True, Templates={"B0", "F0", "B1"}, Amts={2}, Prices={2}, MaxBids=2, Tmax=6, Jump=2,
+                CapSet={5}, StartOffsets={0, 1}, timeout=1500)
 TC_EXT_T = mc("TC_Ext_t", Templates={"B5"}, Prices={1, 2}, Amts={2}, MaxBids=3, Tmax=5, Jump=1, CapSet={2, 4}, StartOffsets={0},
-              CreateUntil=0, Dur=2, MaxMods=0, timeout=2400)
-TC_BATCH_T = mc("TC_Batch_t", Templates={"B1"}, Prices={1, 2, 3}, Amts={1, 3}, MaxBids=3, Tmax=8, Jump=2, StartOffsets={0, 1}, CreateUntil=1,
-                timeout=2400)
-TC_FIXED_T = mc("TC_Fixed_t", Templates={"F1", "F3"}, Amts={1, 2, 3}, MaxBids=3, Tmax=7, Jump=2, CapSet={3, 5}, StartOffsets={0, 1}, CreateUntil=1,
-                timeout=2400)
+              CreateUntil=0, Dur=2, MaxMods=0, timeout=1500)
+TC_BATCH_T = mc("TC_Batch_t", Templates={"B1"}, Prices={1, 2, 3}, Amts={1, 3}, MaxBids=2, Tmax=8, Jump=2, StartOffsets={0, 1}, CreateUntil=1,
+                timeout=1500)
+TC_FIXED_T = mc("TC_Fixed_t", WithInvalid=True, RejectSample=20, Templates={"F1", "F3"}, Amts={1, 2, 3}, MaxBids=2, Tmax=7, Jump=2, CapSet={3, 5}, StartOffsets={0, 1}, CreateUntil=1,
+                timeout=1500)
 THOROUGH_MC = {"MC_Fixed_q": MC_FIXED_T, "MC_Batch_q": MC_BATCH_T, "MC_Life2_q": MC_LIFE_T, "MC_Multi_q": MC_MULTI_T,
                "MC_Genesis_q": MC_GENESIS_T, "MC_Hooks_q": MC_HOOKS_T, "MC_Invalid1_q": MC_INVALID_Q, "TC_Ext_q": TC_EXT_T,
-               "TC_Batch_q": TC_BATCH_T, "TC_Fixed_q": TC_FIXED_T}
+               "TC_Batch_q": TC_BATCH_T, "TC_FixedI_q": TC_FIXED_T}
 LEMMAS = {"C01": ["L1", "L2", "L3", "L4", "L7"], "C03": ["L5"], "C04": ["L1", "L2", "L3", "L6"], "C05": ["L3"],
           "C09": ["L7"], "C11": ["L4"], "C13": ["L9"]}
 
